@@ -84,7 +84,11 @@ StepP(P, cc) ==
   LET
   ideal == P.mode = "ideal"
   Top(c) == c.fr[1]
-  ArrOf(c, a) == IF a \in DOMAIN Top(c).rf THEN Top(c).rf[a] ELSE a
+  \* the array a name denotes in the running procedure: an array formal, else - unless a local variable, formal or val of that name hides
+  \* it - the global array ("?" is no array's name: the use is then undefined)
+  ArrOf(c, a) == IF a \in DOMAIN Top(c).rf THEN Top(c).rf[a]
+                 ELSE IF a \in DOMAIN Top(c).iv \/ a \in DOMAIN Top(c).lv THEN "?" ELSE a
+  Hidden(c, nm) == nm \in DOMAIN Top(c).iv \/ nm \in DOMAIN Top(c).rf \/ nm \in DOMAIN Top(c).lv
   Finish(c, kind, meta, done) ==
     CASE kind = "bin" ->
            IF done[1].kind # "int" \/ done[2].kind # "int" THEN Undef(c, IF "none" \in {done[1].kind, done[2].kind} THEN "noreturn" ELSE "type") ELSE
@@ -153,7 +157,7 @@ StepP(P, cc) ==
       [] e.k = "bin" -> IF e.op \in {"and", "or"}
                         THEN [c EXCEPT !.ctl = Ex(e.l), !.k = Push([k |-> "sc", op |-> e.op, r |-> e.r], c.k)]
                         ELSE Group(c, "bin", [op |-> e.op], <<e.l, e.r>>)
-      [] e.k = "call" -> IF e.n \notin DOMAIN P.procs THEN Undef(c, "name") ELSE Group(c, "call", [n |-> e.n], e.args)
+      [] e.k = "call" -> IF e.n \notin DOMAIN P.procs \/ Hidden(c, e.n) THEN Undef(c, "name") ELSE Group(c, "call", [n |-> e.n], e.args)
       [] e.k = "sys" -> Group(c, "sys", [id |-> e.id], e.args)
   StepStmt(c, s) ==
     CASE s.k = "skip" -> [c EXCEPT !.ctl = NoneV]
